@@ -117,8 +117,17 @@ def prepare_scratch(unit, scratch):
             ex['file'], ', '.join(ex['functions']))
         open(os.path.join(scratch, ex['as']), 'w').write(hdr + body)
     byfile = {}
-    for e in unit.get('loop_contracts', []) + unit.get('probes', []):
+    for e in unit.get('loop_contracts', []):
         byfile.setdefault(e['file'], []).append(e)
+    # reachability probes: a probe whose anchor no longer matches (the code around it changed) is left out --
+    # the proof run still decides the obligations; the cover run then reports the missing probe (UNDECIDED
+    # vacuity), never a violation and never a silently green unit
+    for e in unit.get('probes', []):
+        try:
+            looppatch.patch_source(open(os.path.join(REPO, e['file'])).read(), [e], e['file'])
+            byfile.setdefault(e['file'], []).append(e)
+        except looppatch.ExtractionError as ex:
+            log('probe %s left out: %s' % (e.get('name'), ex))
     for f, entries in byfile.items():
         real = os.path.join(REPO, f)
         text = open(real).read()
@@ -564,7 +573,7 @@ def run_cover(unit, scratch, uws, timeout, mem):
     goals = [r for r in results if r.get('description', '').startswith('COVER ')
              and (r.get('sourceLocation', {}).get('function') == unit['harness']
                   or r.get('description', '').startswith('COVER probe:'))]
-    nprobes = len([g for g in goals if g.get('description', '').startswith('COVER probe:')])
+    nprobes = len(set(g['description'] for g in goals if g.get('description', '').startswith('COVER probe:')))
     if nprobes < len(unit.get('probes', [])):
         return {'status': 'UNDECIDED', 'why': 'reachability probes: %d listed, %d found in the cover run' % (len(unit.get('probes', [])), nprobes), 'covers': []}
     if not goals:
